@@ -8,6 +8,7 @@
    hx_silkside2 sq  <seed> <nrandom>      silk_stereo_quant_pred: grid, boundary points, random (then the indices through the coder
                                           and silk_stereo_decode_pred: what a decoder reconstructs)
    hx_silkside2 ms  <seed> <n>            silk_stereo_MS_to_LR on impulse / step / random inputs from arbitrary 16-bit states
+   hx_silkside2 lr  <seed> <n>            silk_stereo_LR_to_MS (encoder) on panned / uncorrelated / out-of-phase / saturating input from random states
    hx_silkside2 lq  <seed> <n>            silk_find_LTP_FLP + silk_quant_LTP_gains_FLP and silk_quant_LTP_gains on the same
                                           correlations, then silk_decode_parameters on the emitted indices
    hx_silkside2 dp  <seed> <n>            silk_decode_parameters with crafted PERIndex / LTPIndex / LTP_scaleIndex (all vectors, random)
@@ -18,6 +19,7 @@
 #include "main.h"
 #include "SigProc_FIX.h"
 #include "tables.h"
+#include "API.h"
 #include "tuning_parameters.h"
 #include "entdec.h"
 #include "entenc.h"
@@ -174,6 +176,54 @@ static void cmd_ms(hx_rng *r, int n)
    for (i = 0; i < n; i++) exec_ms((unsigned)(hx_next(r) & 0xffffff), i % 6);
 }
 
+
+/* ------------------------------------------------------------------------------------------ */
+/* silk_stereo_LR_to_MS (encoder): the predictors it finds and the width / rate decisions are the encoder's business; what is recorded
+   is everything the integer prediction / interpolation part works from (state before and after, the chosen indices) and its output */
+static void exec_lr(unsigned cs)
+{
+   hx_rng r; stereo_enc_state st; int fs, fl, n, j, pp[2], sm[2], ss[2], npp[2], nsm[2], nss[2], ix6[6], rates[2], wp, sw, ssl, rate, act, tomono, kind;
+   static opus_int16 b1[16 * 20 + 4], b2[16 * 20 + 4]; static int a1[16 * 20 + 2], a2[16 * 20 + 2], o1[16 * 20 + 2], o2[16 * 20 + 2];
+   opus_int16 *x1 = b1 + 2, *x2 = b2 + 2; opus_int8 ix[2][3], mo = 0x55; opus_int32 mr[2];
+   static const int fss[3] = {8, 12, 16};
+   r.s = 0x17a3ULL ^ ((uint64_t)cs << 6);
+   fs = fss[hx_u(&r, 3)]; fl = fs * (hx_u(&r, 2) ? 20 : 10); kind = hx_u(&r, 5);
+   memset(&st, 0, sizeof st);
+   for (n = 0; n < 2; n++) {
+      pp[n] = hx_u(&r, 4) == 0 ? 0 : hx_range(&r, -27000, 27000);
+      sm[n] = hx_range(&r, -3000, 3000); ss[n] = hx_range(&r, -3000, 3000);
+      st.pred_prev_Q13[n] = (opus_int16)pp[n]; st.sMid[n] = (opus_int16)sm[n]; st.sSide[n] = (opus_int16)ss[n];
+   }
+   for (n = 0; n < 4; n++) st.mid_side_amp_Q0[n] = hx_range(&r, 0, 4000);
+   { int m = hx_u(&r, 4); wp = m == 0 ? 0 : (m == 1 ? 16384 : hx_range(&r, 1, 16383)); m = hx_u(&r, 4); sw = m == 0 ? wp : hx_range(&r, 0, 16384); }
+   ssl = hx_u(&r, 3) == 0 ? hx_range(&r, 0, 5 * fs) : 0;
+   st.width_prev_Q14 = (opus_int16)wp; st.smth_width_Q14 = (opus_int16)sw; st.silent_side_len = (opus_int16)ssl;
+   rate = hx_u(&r, 3) ? hx_range(&r, 8000, 60000) : hx_range(&r, 2000, 12000); act = hx_range(&r, 0, 255); tomono = hx_u(&r, 10) == 0;
+   for (n = -2; n < fl; n++) {
+      int a, b, t = hx_range(&r, -8000, 8000);
+      switch (kind) {
+      case 0: a = t; b = t / 2 + hx_range(&r, -300, 300); break;                 /* panned */
+      case 1: a = t; b = hx_range(&r, -8000, 8000); break;                       /* uncorrelated */
+      case 2: a = t; b = -t + hx_range(&r, -100, 100); break;                    /* out of phase */
+      case 3: a = hx_range(&r, -32768, 32767); b = hx_range(&r, -32768, 32767); break;
+      default: a = t; b = t; break;                                              /* mono */
+      }
+      x1[n] = (opus_int16)a; x2[n] = (opus_int16)b; a1[n + 2] = a; a2[n + 2] = b;
+   }
+   memset(ix, 0x55, sizeof ix); mr[0] = mr[1] = 0x55555555;
+   silk_stereo_LR_to_MS(&st, x1, x2, ix, &mo, mr, rate, act, tomono, fs, fl);
+   for (n = 0; n < fl + 2; n++) o1[n] = x1[n - 2];                               /* mid[0 .. fl+1] */
+   for (n = 0; n < fl; n++) o2[n] = x2[n - 1];                                   /* residual side */
+   for (n = 0; n < 2; n++) { npp[n] = st.pred_prev_Q13[n]; nsm[n] = st.sMid[n]; nss[n] = st.sSide[n]; for (j = 0; j < 3; j++) ix6[n * 3 + j] = ix[n][j]; }
+   rates[0] = mr[0]; rates[1] = mr[1];
+   js_open("lr"); js_int("cs", cs); js_int("fs", fs); js_int("fl", fl); js_arr_i("pp", pp, 2); js_arr_i("sm", sm, 2); js_arr_i("ss", ss, 2); js_int("wp", wp); js_int("sw", sw); js_int("ssl", ssl);
+   js_int("rate", rate); js_int("act", act); js_int("tomono", tomono);
+   js_arr_i("x1", a1, fl + 2); js_arr_i("x2", a2, fl + 2); js_arr_i("ix", ix6, 6); js_int("mo", mo); js_arr_i("rates", rates, 2);
+   js_arr_i("npp", npp, 2); js_arr_i("nsm", nsm, 2); js_arr_i("nss", nss, 2); js_int("nw", st.width_prev_Q14); js_int("nsw", st.smth_width_Q14); js_int("nssl", st.silent_side_len);
+   js_arr_i("o1", o1, fl + 2); js_arr_i("o2", o2, fl); js_close();
+}
+static void cmd_lr(hx_rng *r, int n) { int i; for (i = 0; i < n; i++) exec_lr((unsigned)(hx_next(r) & 0xffffff)); }
+
 /* ------------------------------------------------------------------------------------------ */
 /* silk_decode_parameters, LTP part */
 static silk_decoder_state g_dec; static int g_dec_fs = 0, g_dec_nb = 0;
@@ -252,7 +302,8 @@ static void exec_lq(unsigned cs)
       double v = (hx_unit(&r) * 2.0 - 1.0) * nz * 200.0;
       if (i < period) v += 1000.0 * (hx_unit(&r) * 2.0 - 1.0) * ((i % 13) == 0 ? 3.0 : 0.3);
       else v += g * res[i - period] * (0.5 + 0.5 * hx_unit(&r) * (hx_u(&r, 8) == 0)) ;
-      if (v > 30000.0) v = 30000.0; if (v < -30000.0) v = -30000.0;
+      if (v > 30000.0) v = 30000.0;
+      if (v < -30000.0) v = -30000.0;
       res[i] = (silk_float)v;
    }
    for (k = 0; k < nb; k++) lag[k] = period + (hx_u(&r, 4) == 0 ? hx_range(&r, -2, 2) : 0);
@@ -321,7 +372,7 @@ static int exec_wc(const wc_cfg *c, int npk, int from)
    sd = (silk_mirror *)((char *)dec + ((int *)dec)[1]);                   /* OpusDecoder.silk_dec_offset */
    silk_Get_Decoder_Size(&ssz);
    if ((int)sizeof(silk_mirror) != ssz || sd->cs[0].first_frame_after_reset != 1 || sd->cs[1].first_frame_after_reset != 1 || sd->cs[0].prev_gain_Q16 != 65536
-       || sd->nChannelsInternal != 0 || sd->prev_decode_only_middle != 0 || se->nChannelsInternal != 2 && se->nChannelsInternal != 1 && se->nChannelsInternal != 0) {
+       || sd->nChannelsInternal != 0 || sd->prev_decode_only_middle != 0 || (se->nChannelsInternal != 2 && se->nChannelsInternal != 1 && se->nChannelsInternal != 0)) {
       fprintf(stderr, "hx_silkside2: the layout assumed for the SILK decoder super-structure does not hold (mirror %d vs %d)\n", (int)sizeof(silk_mirror), ssz);
       exit(3);
    }
@@ -427,6 +478,7 @@ static void cmd_replay(void)
       if (!strncmp(k, "\"sd\"", 4)) { if (jarr(ln, "ix", a, 6) == 6) exec_sd(a); }
       else if (!strncmp(k, "\"sq\"", 4)) { if (jarr(ln, "in", a, 2) == 2) exec_sq(a[0], a[1]); }
       else if (!strncmp(k, "\"ms\"", 4)) { int cs = jint(ln, "cs", -1), kind = jint(ln, "kind", -1); if (cs >= 0 && kind >= 0 && kind < 6) exec_ms((unsigned)cs, kind); }
+      else if (!strncmp(k, "\"lr\"", 4)) { int cs = jint(ln, "cs", -1); if (cs >= 0) exec_lr((unsigned)cs); }
       else if (!strncmp(k, "\"dp\"", 4)) { int nb = jint(ln, "n", 0); if ((nb == 2 || nb == 4) && jarr(ln, "idx", a, 4) == nb) exec_dp(jint(ln, "fs", 0), nb, jint(ln, "cc", -1), jint(ln, "st", -1), jint(ln, "per", -1), a, jint(ln, "lsc", -1)); }
       else if (!strncmp(k, "\"l2\"", 4) || !strncmp(k, "\"ln\"", 4)) {
          int x = jint(ln, "x", 0);
@@ -452,12 +504,13 @@ int main(int argc, char **argv)
    else if (!strcmp(cmd, "sq")) cmd_sq(&r, argc > 3 ? atoi(argv[3]) : 1000);
    else if (!strcmp(cmd, "ms")) cmd_ms(&r, argc > 3 ? atoi(argv[3]) : 60);
    else if (!strcmp(cmd, "dp")) cmd_dp(&r, argc > 3 ? atoi(argv[3]) : 200);
+   else if (!strcmp(cmd, "lr")) cmd_lr(&r, argc > 3 ? atoi(argv[3]) : 60);
    else if (!strcmp(cmd, "ll")) cmd_ll();
 #ifndef FIXED_POINT
    else if (!strcmp(cmd, "lq")) cmd_lq(&r, argc > 3 ? atoi(argv[3]) : 200);
    else if (!strcmp(cmd, "codec")) cmd_codec(&r, argc > 3 ? atoi(argv[3]) : 8, argc > 4 ? atoi(argv[4]) : 40);
 #endif
    else if (!strcmp(cmd, "replay")) cmd_replay();
-   else { fprintf(stderr, "usage: hx_silkside2 tables|sd|sq|ms|lq|dp|ll|codec|replay ...\n"); return 64; }
+   else { fprintf(stderr, "usage: hx_silkside2 tables|sd|sq|ms|lr|lq|dp|ll|codec|replay ...\n"); return 64; }
    return 0;
 }
